@@ -326,7 +326,12 @@ class Check(PropertyCheck):
                   "equivalent to each other. UpstreamAuth.tunneled is a "
                   "WeakSet: the model never removes entries and assumes client ids are not reused. With HTTP/2 between client and "
                   "mitmproxy a CONNECT stream marks the whole client connection as tunnelled, so later plain-http streams of that "
-                  "connection get no credential (fails closed).")
+                  "connection get no credential (fails closed)."
+                  " Lenient branches: for client replay a layer exception is not a failure when nothing was written (replaying in "
+                  "upstream mode a flow recorded in another mode trips an assertion in HttpLayer.Start); replay cases also vary the "
+                  "spelling of the running mode's name (Upstream: / UPSTREAM:); cases with a refusing ProxyAuth demand only that "
+                  "nothing is written; when two https requests of one client connection go to the same origin the Dest-level model "
+                  "is not compared (TLS connection reuse is the routing model's subject).")
     technique = "Lean 4 proof (trace induction, tunnel-membership invariant) + end-to-end differential correspondence through world.py with the real NextLayer/UpstreamAuth/Proxyserver addons"
     rule = ("history = upstream_auth set/unset x 1-2 client connections with a mode each (regular, upstream, reverse, "
             "transparent, socks5) x <=3 (quick) / <=5 steps per connection interleaved; step = plain absolute/origin-form "
